@@ -722,6 +722,31 @@ func GenFlattenCase(d *D, cfg BundleCfg) *FlattenCase {
 			pi[m] = O{"responses": O{"200": r}}
 		}
 	}
+	if g.Pct(8) {
+		// an explicit operation id which equals the name Flatten generates for an operation without id
+		// (ids stay unique, as Swagger 2.0 requires)
+		type opAt struct {
+			p, m string
+			op   O
+		}
+		var withID, without []opAt
+		for _, p := range SortedKeys(paths) {
+			for _, m := range []string{"delete", "get", "head", "options", "patch", "post", "put"} {
+				if op := Obj(Obj(paths[p])[m]); op != nil {
+					if _, has := op["operationId"]; has {
+						withID = append(withID, opAt{p, m, op})
+					} else {
+						without = append(without, opAt{p, m, op})
+					}
+				}
+			}
+		}
+		if len(withID) > 0 && len(without) > 0 {
+			a, b := withID[g.Int(0, len(withID)-1)], without[g.Int(0, len(without)-1)]
+			a.op["operationId"] = swag.ToGoName(b.m + " " + b.p)
+			g.Label("id-equals-generated-key")
+		}
+	}
 	if as := g.auxWith("pathItems"); len(as) > 0 && g.Pct(50) {
 		g.Label("ref:remote-pathitem")
 		paths["/remote"] = O{"$ref": g.Pick(as) + Frag("pathItems", "pi")}
